@@ -764,6 +764,45 @@ impl Property for C10 {
     }
 
     fn run(&self, tape: &mut Tape, ctx: &Ctx, stats: &mut Stats) -> ScenarioResult {
+        // thorough only, a handful of scenarios: a program that keeps one loop
+        // busy for several seconds of real time, run as three processes
+        // (whatever depends on how long something takes shows up here)
+        if ctx.tier == Tier::Thorough && ctx.index % 15_000 == 7 {
+            let n = 1_100_000 + tape.draw(200_000);
+            let source = format!(
+                "Counter is 0\nWhile Counter is less than {}\nBuild Counter up\n\nSay Counter\nSay \"done\"\n",
+                n
+            );
+            let key = hash_bytes(source.as_bytes());
+            let mut res = ScenarioResult {
+                violation: None,
+                executions: 3,
+                steps: 3,
+                key,
+                nontrivial: false,
+                histories: vec![key],
+                sample: None,
+                digest: key,
+            };
+            stats.inc("probe.long_running_loop_as_processes");
+            match process_arm(&source, b"", tape, stats) {
+                Ok(Some((detail, render, h))) => {
+                    res.violation = Some(Violation {
+                        rule: "C10.D2-processes-differ".into(),
+                        detail,
+                        render,
+                        log_hash: h,
+                        tags: vec!["process-arm".into(), "long-running".into()],
+                    });
+                }
+                Ok(None) => {}
+                Err(e) => {
+                    eprintln!("HARNESS ERROR (process arm): {}", e);
+                    std::process::exit(2);
+                }
+            }
+            return res;
+        }
         // workload: dictionary programs, or (one third) I/O scripts
         let (source, input, features): (String, Vec<u8>, Vec<&'static str>) = if tape.chance(1, 3) {
             let sc = crate::c08::gen_scenario(tape);
@@ -992,6 +1031,7 @@ fn process_arm(
             stdin_kind: if i == 1 { StdinKind::Pipe } else { StdinKind::File },
             shared_out_err: false,
             removed_cwd: false,
+            stalled_stdout_reader_ms: 0,
         };
         let mut r = procworld::run(&spec, &scratch, &format!("c10-{}", i))?;
         r.stderr = procworld::strip_sgr(&r.stderr);
